@@ -59,6 +59,7 @@ class RenderContext:
         "disabled_tags",
         "env",
         "globals",
+        "isolated_globals",
         "local_namespace_size_carry",
         "locals",
         "loop_iteration_carry",
@@ -92,6 +93,12 @@ class RenderContext:
         # NOTE: An empty mapping is falsy, but it might be a chain map that the
         # `render` tag will push a bound variable on to later.
         self.globals: Mapping[str, object] = globals if globals is not None else {}
+
+        # The global namespace handed to contexts that must not see this context's
+        # local variables, like those of the `render` tag and macros. This is
+        # `globals`, unless this context was copied with `block_scope`, in which
+        # case `globals` is the parent context's entire scope.
+        self.isolated_globals: Mapping[str, object] = self.globals
 
         # A namespace for `increment` and `decrement` counters.
         self.counters: dict[str, int] = {}
@@ -436,7 +443,7 @@ class RenderContext:
             ctx = self.__class__(
                 template or self.template,
                 globals=ReadOnlyChainMap(namespace, self.scope),
-                disabled_tags=disabled_tags,
+                disabled_tags=disabled_tags or self.disabled_tags,
                 copy_depth=self._copy_depth + 1,
                 parent_context=self,
                 loop_iteration_carry=loop_iteration_carry,
@@ -445,10 +452,11 @@ class RenderContext:
             # This might need to be generalized so the caller can specify which
             # tag namespaces need to be copied.
             ctx.tag_namespace["extends"] = self.tag_namespace["extends"]
+            ctx.isolated_globals = self.isolated_globals
         else:
             ctx = self.__class__(
                 template or self.template,
-                globals=ReadOnlyChainMap(namespace, self.globals),
+                globals=ReadOnlyChainMap(namespace, self.isolated_globals),
                 disabled_tags=disabled_tags,
                 copy_depth=self._copy_depth + 1,
                 parent_context=self,
